@@ -14,6 +14,9 @@ Read from the ast of sigpyproc/core/kernels.py (fresh on every run):
     `if` on a loaded value becomes a Coq `if` on the value the load returned (value-dependent control),
     `a[i] op= e` is a load of a[i], the loads of e, then a store.  True division is the parameter `divcast`.
   * update_moments / update_moments_basic as pure functions (`<f>_fn`).
+  * the fastmath / locals options with which the two decimation aliases (`downsample_*_parallel`) and their serial twins are
+    compiled: `<k>_fastmath`, `<k>_recip_division` (does fastmath allow `arcp`, i.e. x / n -> x * (1 / n)); an alias that may use
+    reciprocal division, or that differs from its twin, is an error.
 Read from sigpyproc/base.py: how Filterbank.subband builds `chan_to_sub` (`subband_site_chan_to_sub`) and the argument
 positions at which it and `nsub` are passed to kernels.subband, plus the ValueError guards on `nsub` that precede the call.
 
@@ -110,6 +113,79 @@ def record_fields(mod):
                 raise Unsupported("moments_dtype duplicate field")
             return names
     raise Unsupported("moments_dtype not found")
+
+
+ALL_FASTMATH = ["afn", "arcp", "contract", "ninf", "nnan", "nsz", "reassoc"]
+# parallel aliases built from the python definition of a serial kernel: alias -> serial twin
+TWINS = {"downsample_1d_mean_parallel": "downsample_1d_mean", "downsample_2d_mean_parallel": "downsample_2d_mean_flat"}
+
+
+def njit_options(mod, name):
+    """(sorted fastmath flags, text of locals=) of the njit call that compiles `name` (decorator or alias assignment)"""
+    consts = {}
+    for n in mod.body:
+        if isinstance(n, ast.Assign) and len(n.targets) == 1 and isinstance(n.targets[0], ast.Name) and isinstance(n.value, ast.Set):
+            consts[n.targets[0].id] = n.value
+    call = None
+    for n in mod.body:
+        if isinstance(n, ast.FunctionDef) and n.name == name:
+            cs = [d for d in n.decorator_list if isinstance(d, ast.Call) and ast.unparse(d.func) in ("njit", "jit", "numba.njit", "numba.jit")]
+            if len(cs) != 1:
+                raise Unsupported(f"{name}: expected one njit(...) decorator with options")
+            call = cs[0]
+        elif (isinstance(n, ast.Assign) and len(n.targets) == 1 and isinstance(n.targets[0], ast.Name) and n.targets[0].id == name
+              and isinstance(n.value, ast.Call) and ast.unparse(n.value.func) in ("njit", "jit", "numba.njit", "numba.jit")):
+            call = n.value
+    if call is None:
+        raise Unsupported(f"{name}: njit call not found")
+    fm, loc = None, ""
+    for k in call.keywords:
+        if k.arg is None:
+            raise Unsupported(f"{name}: **options in the njit call")
+        if k.arg == "fastmath":
+            fm = k.value
+        elif k.arg == "locals":
+            loc = ast.unparse(k.value)
+    if fm is None or (isinstance(fm, ast.Constant) and fm.value is False):
+        flags = []
+    elif isinstance(fm, ast.Constant) and fm.value is True:
+        flags = list(ALL_FASTMATH)
+    else:
+        if isinstance(fm, ast.Name):
+            if fm.id not in consts:
+                raise Unsupported(f"{name}: fastmath={fm.id} is not a module-level set literal")
+            fm = consts[fm.id]
+        if not (isinstance(fm, ast.Set) and all(isinstance(e, ast.Constant) and isinstance(e.value, str) for e in fm.elts)):
+            raise Unsupported(f"{name}: fastmath option {ast.unparse(fm)}")
+        flags = sorted({e.value for e in fm.elts})
+        if "fast" in flags:
+            flags = list(ALL_FASTMATH)
+        for f in flags:
+            if f not in ALL_FASTMATH:
+                raise Unsupported(f"{name}: unknown fastmath flag {f}")
+    return flags, loc
+
+
+def division_options(mod):
+    """Coq text + errors: how the decimators (the only enumerated kernels whose result is a quotient) are allowed to divide"""
+    out = ["(* ---- compile options of the decimation kernels: `arcp` lets LLVM replace x / n by x * (1 / n), which is not the",
+           "   division of the Python definition (a mean that is exactly an integer can come out one ulp low) ---- *)"]
+    errs = []
+    opts = {}
+    for alias, twin in TWINS.items():
+        for k in (alias, twin):
+            flags, loc = njit_options(mod, k)
+            opts[k] = (flags, loc)
+            out.append(f"Definition {k}_fastmath : list string := [" + "; ".join(f'"{f}"' for f in flags) + "].")
+            out.append(f"Definition {k}_recip_division : bool := {'true' if 'arcp' in flags else 'false'}.")
+        if ("arcp" in opts[alias][0]) != ("arcp" in opts[twin][0]):
+            errs.append(f"{alias} and its serial twin {twin} are compiled with different division semantics (fastmath {opts[alias][0]} vs {opts[twin][0]})")
+        if "arcp" in opts[alias][0]:
+            errs.append(f"{alias}: fastmath allows reciprocal division (arcp): the compiled kernel does not divide like its Python definition")
+        if opts[alias][1] != opts[twin][1]:
+            errs.append(f"{alias} and its serial twin {twin} differ in locals=: {opts[alias][1]!r} vs {opts[twin][1]!r}")
+    out.append("")
+    return "\n".join(out), errs
 
 
 class Body:
@@ -731,6 +807,13 @@ def gen_c19(repo="/repo"):
     except (Unsupported, OSError, SyntaxError) as e:
         errors.append(f"subband site: {e}")
         out.append(f"(* UNSUPPORTED subband site: {str(e).replace('*)', '* )')} *)\n")
+    try:
+        txt, errs = division_options(mod)
+        out.append(txt)
+        errors += errs
+    except Unsupported as e:
+        errors.append(f"decimation compile options: {e}")
+        out.append(f"(* UNSUPPORTED decimation compile options: {str(e).replace('*)', '* )')} *)\n")
     gen_c19.meta = meta
     return "\n".join(out), errors
 
